@@ -2,6 +2,11 @@
 """Regenerates MANIFEST.json from the table below (keeps it valid at all times)."""
 import json, sys
 CHECKS = {
+ "C18": dict(level="exploration", design="4/C18",
+   text="Seeded proptest search over GDSII and LEF library values whose string fields are replaced by strings built from JSON/YAML-special characters and whose doubles span the GDSII range, crossed with {JSON, YAML} x {to_string/from_str, save/open}; GDSII file -> to_markup -> from_markup -> GDSII bytes; sweeps of 16 doubles per case. Oracle: loaded value equal to the original with doubles compared by bit pattern, decimals by value; bytes identical.",
+   note="TOML not in the property. The harness adds no serde_json/rust_decimal/serde_yaml feature beyond the repository's own.",
+   technique="property-based testing: serialise/deserialise round-trip oracle with bit-exact comparison"),
+
  "C11": dict(level="fault_enumeration", design="4/C11",
    text="Exhaustive fault enumeration over 40 rendered LEF texts (with and without lexical variation / non-ASCII comments) and the repository's macro.lef: every prefix at every character boundary, every single-token fault (delete, duplicate, swap, replace by 21 keywords/numbers/punctuation/unterminated string) at every token; proptest-driven insertion of multi-byte, odd-whitespace (VT, NEL, NBSP, EM SPACE, BOM, NUL) and delimiter characters anywhere; token soup with arbitrary Unicode scalars. Oracle: LefLibrary::open returns, also on its error-report path (panics caught in-process, aborts/hangs by the supervising process with CPU limit); an Ok library can be written and re-read without a crash; allocation at most doubles when the input doubles.",
    note="Termination = returns before the 30 s in-flight watchdog / 20 s CPU in isolation; linear time approximated by allocation volume.",
